@@ -296,6 +296,9 @@ func (b *Builder) expandBody(nf *ssa.Function, fn *ssa.Function) {
 	// φ tested in the continuation; route every edge whose outcome is known straight to its target
 	if len(b.Inlined[nf]) > 0 {
 		finish(nf)
+		if fuseBlocks(nf) {
+			finish(nf)
+		}
 		nThr := 0
 		for i := 0; i < 600 && threadOnce(nf); i++ {
 			finish(nf)
@@ -753,6 +756,10 @@ func threadOnce(nf *ssa.Function) bool {
 			switch x := v.(type) {
 			case *ssa.Phi:
 				if x.Block() == B && (strings.HasPrefix(x.Comment, "inl.") || strings.HasPrefix(x.Comment, "thr")) {
+					fromInline = true
+				}
+				// `return a && b` of an inlined predicate: the short-circuit φ is the call's result
+				if x.Block() == B && (x.Comment == "&&" || x.Comment == "||") && strings.Contains(B.Comment, " [") {
 					fromInline = true
 				}
 			case *ssa.BinOp:
